@@ -28,7 +28,7 @@ print("""You are helping to test a verification harness for the Go library zombi
 
 Environment: no network. Every shell call must start with
   export GOFLAGS=-mod=mod GOPROXY=off GOSUMDB=off GOTOOLCHAIN=local
-Build with `go build ./... && go vet . ./format`, run the suite with `go test -count=1 ./...` (cwd %(wt)s; takes about 10 s). If go.sum gets rewritten, `git checkout -- go.sum`.
+Build with `go build ./... && go vet . ./format`, run the suite with `go test -count=1 . ./format ./internal/...` (cwd %(wt)s; takes about 10 s; that is the whole existing suite - a bare ./... would also try to build your seed/ directory). If go.sum gets rewritten, `git checkout -- go.sum`. Never use `git stash` (the stash is shared by all worktrees of the repository).
 
 THE PROPERTY (id %(id)s): %(title)s
 
@@ -42,10 +42,10 @@ Code anchors: files %(files)s; mechanisms: %(mech)s; observable at: %(obs)s
 
 WHAT TO PRODUCE. %(count)d separate changes (each applies alone to the clean HEAD), each of which:
  1. is a change a maintainer could plausibly make (a refactoring, an optimisation, a "tidy-up", a cache, a fast path, a boundary constant, a helper swapped for a near-equivalent one), small (typically 3-40 changed lines), in non-test files only, not guarded by any build tag;
- 2. compiles, passes `go vet`, and passes the whole existing suite unedited (`go test -count=1 ./...`);
+ 2. compiles, passes `go vet`, and passes the whole existing suite unedited (`go test -count=1 . ./format ./internal/...`);
  3. makes the library violate the property above for some inputs/usages - a real semantic violation of the statement as written, not a cosmetic difference that the statement allows;
  4. NEEDS SOMETHING SPECIFIC TO MANIFEST: an unusual input shape, a boundary count or length, a particular read schedule or API call sequence, a particular configuration, a crash/fault at a particular point, a particular goroutine interleaving, or two cooperating code sites that each look fine alone. Ordinary use (typical documents, the spec examples) must not expose it at once. Aim for subtle and deep: a defect that a quick random test with naive inputs would most likely miss.
- 5. comes with a demonstration: a Go test file (package commonmark, or package format for the formatter) with one Test function named TestSeed%(id)sr8xN (N = 1..%(count)d) that FAILS with the change and PASSES on the clean tree, using only the public API (or unexported identifiers of the package if really needed), self-contained (no new dependencies).
+ 5. comes with a demonstration: a Go test file (package commonmark, or package format for the formatter) with one Test function named TestSeed%(id)sr9xN (N = 1..%(count)d) that FAILS with the change and PASSES on the clean tree, using only the public API (or unexported identifiers of the package if really needed), self-contained (no new dependencies).
 
 The following ideas were already used for this property in earlier rounds. Do NOT repeat them or close variants of them; look in other code paths, other mechanisms named in the anchors, other API entry points, other configurations:
 %(earlier)s
